@@ -56,6 +56,17 @@ theorem no_other_process_state :
     mutableDefaults = [("atomgrid", "AtomGrid.__init__", "[50]")] := by
   decide
 
+/-- **No mutable default argument is written or handed on**: for every default argument that is a mutable
+object (regenerated list; in the pinned tree `AtomGrid.__init__(degrees=[50])`) no statement of the function,
+nor of the functions of the module it passes the parameter to, assigns into the parameter, calls a mutating
+method on it, or stores / returns the object itself.  So the default stays what the source says for every later
+call, and a list the caller passes for that parameter (and may pass again to another request) stays the caller's.
+Every enumerated mutable default is covered. -/
+theorem mutable_defaults_never_written :
+    (∀ d ∈ mutableDefaultUses, d.2.2.2.1 = [] ∧ d.2.2.2.2 = []) ∧
+    mutableDefaultUses.map (fun d => (d.1, d.2.1)) = mutableDefaults.map (fun d => (d.1, d.2.1)) := by
+  decide
+
 open Gen.AngularCache in
 /-- **The cache protocol the alias machine models is the one in the source**: the method name is
 lower-cased before a cache is chosen; the four methods use four *different* module-level dictionaries,
